@@ -51,11 +51,12 @@ func c16Build(mk func() ast.Vertex, fs []astx.Field, digits []int) ast.Vertex {
 		fv := v.Field(f.Idx)
 		switch f.Kind {
 		case astx.FPos:
-			fv.Set(reflect.ValueOf(&position.Position{StartLine: i + 1, EndLine: i + 2, StartPos: i + 3, EndPos: i + 4}))
+			// the end of an empty statement list is recorded as -1/-1: the numbers of a position are signed
+			fv.Set(reflect.ValueOf(&position.Position{StartLine: i + 1, EndLine: -1, StartPos: i + 3, EndPos: -1}))
 		case astx.FTok:
 			fv.Set(reflect.ValueOf(&token.Token{ID: token.T_STRING + token.ID(i), Value: []byte(fmt.Sprintf("t%d\"\n\\%%d%%%%`", i)),
 				Position:     &position.Position{StartLine: 1, EndLine: 1, StartPos: i, EndPos: i + 1},
-				FreeFloating: []*token.Token{{ID: token.T_WHITESPACE, Value: []byte(" ")}, {ID: token.ID('#'), Value: []byte{}}, {ID: token.T_COMMENT, Value: []byte("/*`*/"), Position: &position.Position{StartLine: 2, EndLine: 3, StartPos: 4, EndPos: 5}}}}))
+				FreeFloating: []*token.Token{{ID: token.T_WHITESPACE, Value: []byte(" ")}, {ID: token.ID('#'), Value: []byte{}}, {ID: token.T_COMMENT, Value: []byte("/*`*/"), Position: &position.Position{StartLine: -1, EndLine: -1, StartPos: -1, EndPos: -1}}}}))
 		case astx.FToks:
 			if d == 1 {
 				fv.Set(reflect.ValueOf([]*token.Token{{ID: token.ID(','), Value: []byte(",")}, {Value: []byte("x")}, {ID: token.ID(20000 + i)}}))
